@@ -38,6 +38,16 @@ CHECKS = {
             'The service half is model-checked and replayed like C01; the library half is exhaustive over all multisets of <= 3-5 points in {0,1,2(,3)}^d, d <= 3-4, '
             'with -inf/+inf palette, against Naive, Fast (thresholds 1,2,3,n; over Naive and Jax), xla is_frontier/pareto_rank, nsga2._pareto_rank, update_pareto_optimal, GetBestTrials.',
             'JAX variants on a seeded 2-5% sample (dispatch cost); orders above 6 per multiset sampled in quick.'),
+    'C07': (MC, '5 C07', 'TLA+ Spec A transition histories replayed on three backends (RAM, in-memory SQLite, SQLite file) and compared through the model; '
+            'same-seed recorded walks on every backend validated by VizierTrace.tla',
+            'The model is deterministic given the environment choices carried in the call record, so acceptance of a history on every backend is step-by-step '
+            'equality of their responses, error classes and stored state; configs are biased to delete/re-create, failed metadata updates, operation numbering.',
+            'SQLite-file backend replayed on a seeded sample (engine creation cost); timestamps/list order outside the projection.'),
+    'C08': (MC, '5 C08', 'ClientApi.tla (clients.Study/Trial methods as RPC sequences over Apply with the client-level exception contract) model-checked with TLC; '
+            'every client-level transition replayed through vizier.service.clients against the in-process service, a gRPC server and a gRPC server with separate Pythia server',
+            'TLC checks the promised exceptions (ResourceNotFound, [] for a finished study, pure exceptions) on the client model; every deployment must reproduce the '
+            'model\'s outcome (value or exception class) and the stored state on every enumerated client program, hence agree with each other.',
+            'Deployments are the repository\'s own server classes on localhost in one process; exception classes abstracted per DESIGN 3.1 (raw NotFoundError and RpcError NOT_FOUND are one class).'),
 }
 
 PENDING = {
